@@ -165,24 +165,55 @@ theorem memberPairs_nodup (l : List (Nat × Obj)) (h : (l.map (·.1)).Nodup) : (
   simp only [memberPairs, List.map_map, List.Nodup, List.pairwise_map] at h ⊢
   exact h.imp (fun hab heq => hab (by simp only [Function.comp] at heq; injection heq))
 
+/-- the members' positions increase strictly (every member has at least one byte) -/
+theorem members_positions : ∀ {d pos : Nat} {ms : List (Obj × Nat)} {bs : Bytes}, DerivesMembers d pos ms bs →
+    (ms.map (·.2)).Pairwise (· < ·) ∧ ∀ p ∈ ms, pos ≤ p.2
+  | _, _, _, _, .nil d pos => by simp
+  | _, _, _, _, .cons d pos o ms b sp bs' ho hsp hrest hsep => by
+    have hb := obj_len_pos ho
+    obtain ⟨h1, h2⟩ := members_positions hrest
+    refine ⟨?_, ?_⟩
+    · simp only [List.map_cons, List.pairwise_cons]
+      refine ⟨?_, h1⟩
+      intro q hq
+      obtain ⟨p, hp, rfl⟩ := List.mem_map.mp hq
+      have := h2 p hp
+      omega
+    · intro p hp
+      rcases List.mem_cons.mp hp with rfl | hp'
+      · exact Nat.le_refl _
+      · have := h2 p hp'; omega
+
 theorem pairs_complete (content area : Bytes) (first : Nat) (hdrop : ∀ off, content.drop (first + off) = area.drop off)
     (hlen : content.length = first + area.length) :
-    ∀ (nums : List Nat) (ms : List (Obj × Nat)), nums.length = ms.length →
+    ∀ (nums : List Nat) (ms : List (Obj × Nat)) (seen : List Nat), nums.length = ms.length →
     (∀ p ∈ ms, p.2 < area.length ∧ ∃ r, parseDirect (area.drop p.2) = some (p.1, r)) →
-    objStmObjects.pairs content first ((flatPairs (nums.zip (ms.map (·.2)))).map some) =
+    (ms.map (·.2)).Pairwise (· < ·) → (∀ s ∈ seen, ∀ p ∈ ms, s < p.2) →
+    objStmObjects.pairs content first ((flatPairs (nums.zip (ms.map (·.2)))).map some) seen =
       memberPairs (nums.zip (ms.map (·.1))) := by
   intro nums
   induction nums with
-  | nil => intro ms _ _; simp [flatPairs, objStmObjects.pairs, memberPairs]
+  | nil => intro ms seen _ _ _ _; simp [flatPairs, objStmObjects.pairs, memberPairs]
   | cons n ns ih =>
-    intro ms hl hp
+    intro ms seen hl hp hpw hseen
     cases ms with
     | nil => simp at hl
     | cons m ms' =>
       obtain ⟨o, off⟩ := m
       obtain ⟨h1, r, h2⟩ := hp (o, off) (by simp)
-      have ih' := ih ms' (by simpa using hl) (fun p hp' => hp p (by simp [hp']))
-      simp only [List.map_cons, List.zip_cons_cons, flatPairs, objStmObjects.pairs, ih']
+      simp only [List.map_cons, List.pairwise_cons] at hpw
+      have hnew : seen.contains off = false := by
+        rw [List.contains_eq_any_beq, List.any_eq_false]
+        intro s hs
+        have := hseen s hs (o, off) (by simp)
+        simp only [beq_iff_eq]
+        omega
+      have ih' := ih ms' (off :: seen) (by simpa using hl) (fun p hp' => hp p (by simp [hp'])) hpw.2 (by
+        intro s hs p hp'
+        rcases List.mem_cons.mp hs with rfl | hs'
+        · exact hpw.1 p.2 (List.mem_map_of_mem hp')
+        · exact hseen s hs' p (by simp [hp']))
+      simp only [List.map_cons, List.zip_cons_cons, flatPairs, objStmObjects.pairs, hnew, Bool.false_eq_true, if_false, ih']
       have hlt : ¬ (first + off ≥ content.length) := by omega
       simp only [hlt, if_false, hdrop, h2]
       rfl
@@ -251,7 +282,8 @@ theorem objStmObjects_complete {members : List (Nat × Obj)} {first : Nat} {cont
       have := toks_length htoks
       simp only [List.length_append]; omega)
     have hpairs := pairs_complete ((w0 ++ tb) ++ (pre ++ mb)) (pre ++ mb) (w0 ++ tb).length
-      (fun off => List.drop_length_add_append off) (by simp only [List.length_append]) nums ms hl hms
+      (fun off => List.drop_length_add_append off) (by simp only [List.length_append]) nums ms [] hl hms
+      (members_positions hmem).1 (by intro s hs; simp at hs)
     have hdd := dedupLast_nodup (memberPairs (nums.zip (ms.map (·.1)))) (memberPairs_nodup _ hnd)
     have hlt : ¬ (((w0 ++ tb).length : Int) < 0) := by omega
     have hgt : ¬ ((w0 ++ tb).length > ((w0 ++ tb) ++ (pre ++ mb)).length) := by simp
